@@ -1,4 +1,4 @@
-// background_load_in_progress used with condition variable
+// backgroundload_in_progress used with condition variable
 #![allow(clippy::mutex_atomic)]
 
 use std::collections::VecDeque;
@@ -23,7 +23,26 @@ pub struct DiskReadScheduler {
     load_scheduled: RwLock<HashMap<(String, PartitionID), AtomicBool>>,
 
     background_load_wait_queue: Condvar,
-    background_load_in_progress: Mutex<bool>,
+    backgroundload_in_progress: Mutex<bool>,
+}
+
+/// Clears the `load_scheduled` flag of a partition when the load ends, however it ends. If the flag
+/// stayed set after a load that panicked (unreadable partition file), every later `get_or_load` of a
+/// non-resident column of that partition would spin in its loop forever, waiting for a load that
+/// nobody performs.
+struct LoadInProgress<'a> {
+    scheduler: &'a DiskReadScheduler,
+    partition: &'a (String, PartitionID),
+}
+
+impl Drop for LoadInProgress<'_> {
+    fn drop(&mut self) {
+        if let Ok(load_scheduled) = self.scheduler.load_scheduled.read() {
+            if let Some(flag) = load_scheduled.get(self.partition) {
+                flag.store(false, Ordering::SeqCst);
+            }
+        }
+    }
 }
 
 #[derive(Default, Debug)]
@@ -47,7 +66,7 @@ impl DiskReadScheduler {
             lru,
             lz4_decode,
             background_load_wait_queue: Condvar::default(),
-            background_load_in_progress: Mutex::default(),
+            backgroundload_in_progress: Mutex::default(),
             load_scheduled: RwLock::default(),
         }
     }
@@ -97,21 +116,22 @@ impl DiskReadScheduler {
             // Load for column is already scheduled, wait for it to complete.
             // TODO: this doesn't do anything currently, was only used by sequential disk reads. should check whether relevant subpartition is currently being loaded.
             } else if self.is_load_scheduled(&partition_handle) {
-                let mut is_load_in_progress = self.background_load_in_progress.lock().unwrap();
-                while *is_load_in_progress
+                let mut isload_in_progress = self.backgroundload_in_progress.lock().unwrap();
+                while *isload_in_progress
                     && !handle.is_resident()
                     && self.is_load_scheduled(&partition_handle)
                 {
                     debug!("Queuing for {}.{}", handle.name(), handle.id());
-                    is_load_in_progress = self
+                    isload_in_progress = self
                         .background_load_wait_queue
-                        .wait(is_load_in_progress)
+                        .wait(isload_in_progress)
                         .unwrap();
                 }
             // Load for column is not scheduled, load all columns in the same subpartition..
             } else {
                 // TODO: ensure same partition isn't being loaded multiple times
                 debug!("Point lookup for {}.{}", handle.name(), handle.id());
+                let load_in_progress;
                 let columns = {
                     {
                         let mut load_scheduled = self.load_scheduled.write().unwrap();
@@ -128,6 +148,10 @@ impl DiskReadScheduler {
                                 .store(true, Ordering::SeqCst);
                         }
                     }
+                    load_in_progress = LoadInProgress {
+                        scheduler: self,
+                        partition: &partition_handle,
+                    };
 
                     let _token = self.reader_semaphore.access();
                     match self.disk_store.load_column(
@@ -180,7 +204,7 @@ impl DiskReadScheduler {
                     handle.id(),
                     handle.name(),
                 );
-                self.load_scheduled.read().unwrap().get(&partition_handle).unwrap().store(false, Ordering::SeqCst);
+                drop(load_in_progress);
                 match result {
                     Some(column) => return Some(column),
                     None => handle.set_empty(),
@@ -191,7 +215,7 @@ impl DiskReadScheduler {
 
     pub fn service_reads(&self, ldb: &InnerLocustDB) {
         debug!("Waiting to service reads...");
-        *self.background_load_in_progress.lock().unwrap() = true;
+        *self.backgroundload_in_progress.lock().unwrap() = true;
         debug!("Started servicing reads...");
         loop {
             let next_read = {
@@ -200,7 +224,7 @@ impl DiskReadScheduler {
                     Some(read) => read,
                     None => {
                         debug!("Stopped servicing reads...");
-                        *self.background_load_in_progress.lock().unwrap() = false;
+                        *self.backgroundload_in_progress.lock().unwrap() = false;
                         return;
                     }
                 }
